@@ -35,9 +35,9 @@ CLAIMS = {
         note="Trusted: spec/blockstring.py (BlockStringValue transcription), spec/lexical.py, contracts/parser_map.py (node kinds and slot order per "
              "nonterminal). parse_block_string itself is bounded only."),
     "C03": dict(
-        category="other", engine="rtc",
-        technique="run-time contracts (round-trip, fix-point, determinism) on enumerated parser-produced trees; no deductive obligation within reach",
-        text="Bounded stand-in only: for every accepted text of the derivation corpus and a string-payload family (quoted and block form, 8 syntactic "
+        category="other", engine="static+rtc",
+        technique="static slot-coverage obligations on the printer (every slot of every node kind is read by its print method; all trees) + run-time contracts (round-trip, fix-point, determinism) on enumerated parser-produced trees; no deductive obligation within reach",
+        text="All trees: each of the 108 (node kind, slot) pairs is read by the print method the dispatcher selects - necessary for the round trip; the 3 unread member-description slots are the listed finding. Bounded stand-in only: for every accepted text of the derivation corpus and a string-payload family (quoted and block form, 8 syntactic "
              "positions) and 5 indent settings: printing never raises, is deterministic, output parses, parse(print(t)) == t, print is a fix-point.",
         note="Not a proof: the printer's encoders (json.dumps, str.replace) are outside the VC generator's subset. Known finding: member descriptions "
              "dropped by print_ast (pinned by tests)."),
@@ -145,9 +145,9 @@ CLAIMS = {
              "event that failed unexpectedly); seven refusal cases are raised before the source stream is advanced.",
         note=BND + "Concurrent pulls by a consumer that does not await are not covered."),
     "C05": dict(
-        category="other", engine="rtc",
-        technique="run-time contracts: validate_ast never raises; validated => executes per the reference executor with unambiguous response keys",
-        text="Bounded: over hand-written adversarial documents, generated valid operations, single-token mutations of both and the derivation corpus "
+        category="other", engine="static+rtc",
+        technique="static exception-escape obligations over the validator's source (explicit raises, guarded schema lookups) + run-time contracts: validate_ast never raises; validated => executes per the reference executor with unambiguous response keys",
+        text="All inputs: every explicit raise in py_gql.validation is the traversal's SkipNode signal under an enter_* method, every schema lookup that raises UnknownType is guarded, validate_ast / default_validator raise nothing themselves (20 obligations; implicit exceptions are bounded only). Bounded: over hand-written adversarial documents, generated valid operations, single-token mutations of both and the derivation corpus "
              "over arbitrary names, validate_ast returns its error list without raising; every accepted operation executes without internal "
              "exception, with the data the reference executor determines, and no response key merges different fields.",
         note=BND + "Exception-escape analysis over the visitor-based validator is outside the VC generator's subset."),
